@@ -1,5 +1,5 @@
 (* C05 — property theorems.  Only statements, [exact lemma] and Print Assumptions. *)
-From Coq Require Import ZArith List.
+From Coq Require Import ZArith List Permutation.
 From FV Require Import Lib.RustInt C05.Model C05.Proofs C05.Sort.
 Import ListNotations.
 Open Scope Z_scope.
@@ -61,7 +61,7 @@ Proof. exact layout_okb_resolves. Qed.
    starts with the root, contains every object reachable from the root, has every parent before each
    child, and the recorded positions are the prefix sums.  No acyclicity assumption: on a cyclic graph the
    final removed_edges check makes the model panic.  (The same holds for sort_shortest_distance: Sort.v
-   sort_sd_sorted.)  NOT proved: totality (acyclic + reachable => returns Some), see notes. *)
+   sort_sd_sorted.)  Totality: c05_kahn_order_topological below. *)
 Theorem c05_kahn_order_topological_partial : forall objs root g g',
   from_objects objs root = Some g -> no_link_to objs root -> (1 < length objs)%nat ->
   sort_kahn g = Some g' ->
@@ -71,6 +71,19 @@ Theorem c05_kahn_order_topological_partial : forall objs root g g',
      precedes (g_order g') id (l_obj l)) /\
   positions_match g'.
 Proof. exact kahn_order_topological_partial. Qed.
+
+(* kahn_order_topological, TOTAL (round 2): on an acyclic graph (rank function increasing along links) whose
+   objects are all reachable from the root, whose link targets exist, whose root nobody links and whose total
+   size is < 2^32, sort_kahn does NOT panic and returns a duplicate-free listing of ALL objects (a permutation of
+   the keys) that starts with the root, has every parent before each child, with positions = prefix sums. *)
+Theorem c05_kahn_order_topological : forall objs root rk g,
+  from_objects objs root = Some g -> dag_ok objs root rk -> (1 < length objs)%nat ->
+  exists g', sort_kahn g = Some g' /\
+    NoDup (g_order g') /\ Permutation (g_order g') (mkeys objs) /\ (exists r, g_order g' = root :: r) /\
+    (forall id o l, In id (g_order g') -> mfind id objs = Some o -> In l (o_links o) ->
+       precedes (g_order g') id (l_obj l)) /\
+    positions_match g'.
+Proof. exact kahn_order_topological. Qed.
 
 (* END-TO-END for the modelled packer (basic path: Kahn, shortest distance; the model never reports
    Packed otherwise).  [graph_hyps]: the root object exists, nobody links it, every object has well-formed
@@ -110,6 +123,7 @@ Print Assumptions c05_serialize_sound_gate.
 Print Assumptions c05_layout_okb_sound.
 Print Assumptions c05_checked_case_resolves.
 Print Assumptions c05_kahn_order_topological_partial.
+Print Assumptions c05_kahn_order_topological.
 Print Assumptions c05_pack_success_resolves.
 Print Assumptions c05_dump_bytes_resolve.
 Print Assumptions c05_graph_hypsb_sound.
